@@ -1042,6 +1042,16 @@ pub fn scen_history(initial: &Model, ops: &[Op], setup: &Setup, out: &mut Out) {
                 }
             }
         }
+        // after every second operation the bounds the solver reports are read: they are root bounds
+        // of the accumulated model (they enclose every solution of it and lie in the declared domains),
+        // whatever the operation was (a posting, an interrupted or complete solve, an enumeration, ...)
+        if !infeasible && (setup.style_seed >> (i % 48)) & 1 == 1 {
+            for x in 0..vars.ids.len() {
+                let lb = solver.lower_bound(&vars.ids[x]);
+                let ub = solver.upper_bound(&vars.ids[x]);
+                out.push(format!("bounds op{} {} {} {}", i, x, lb, ub));
+            }
+        }
     }
     report_branch_log(&brancher, out);
 }
